@@ -598,38 +598,39 @@ package whispertool
 //@   use div_mono(s, b, a + n * s)
 //@   ensures bound: b fdiv s - a fdiv s <= n
 
-//@ spec wellShapedTS(ts *TimeSeries) bool = ts.step >= 1 && len(ts.values) * ts.step <= 2147483647 && ts.fromTime + len(ts.values) * ts.step <= 4294967295
+//@ spec shapeOK(from int, n int, step int) opaque bool = step >= 1 && 0 <= n && n * step <= 2147483647 && 0 <= from && from + n * step <= 4294967295
+//@ spec wellShapedTS(ts *TimeSeries) bool = shapeOK(ts.fromTime, len(ts.values), ts.step)
 //@ lemma mul_mono(i int, n int, s int)
 //@   props C04 C18
 //@   requires 0 <= i && i <= n && s >= 0
 //@   ensures mono: i * s <= n * s && 0 <= i * s
 //@   ensures ge: s >= 1 ==> i <= i * s && n <= n * s
 
-//@ spec tsTime(from int, i int, step int) opaque int = from + i * step
+//@ spec tsTime(from int, i int, step int) rec int = (from + wrapi32(wrapi32(i) * step)) fmod 4294967296
 //@ lemma wrap_id32(x int)
 //@   props C04 C18 C08 C09
 //@   requires -2147483648 <= x && x <= 2147483647
 //@   ensures id: wrapi32(x) == x
 //@ lemma series_time(from int, i int, n int, step int)
 //@   props C04 C18 C08 C09
-//@   requires 0 <= i && i <= n && step >= 1 && n * step <= 2147483647 && 0 <= from && from + n * step <= 4294967295
+//@   requires 0 <= i && i <= n && shapeOK(from, n, step)
 //@   use mul_mono(i, n, step)
 //@   use wrap_id32(i)
 //@   use wrap_id32(i * step)
-//@   ensures time: (from + wrapi32(wrapi32(i) * step)) fmod 4294967296 == tsTime(from, i, step)
-//@   ensures bound: tsTime(from, i, step) <= from + n * step && from <= tsTime(from, i, step)
+//@   ensures time: tsTime(from, i, step) == from + i * step
+//@   ensures bound: from <= tsTime(from, i, step) && tsTime(from, i, step) <= 4294967295
 
 //@ func (*TimeSeries).Points
 //@   props C04 C18
 //@   ensures absent: ts == nil ==> len(result) == 0
 //@   ensures length: ts != nil ==> len(result) == len(ts.values) && fresh(result)
 //@   ensures values: ts != nil ==> forall i :: 0 <= i && i < len(ts.values) ==> bits(result[i].Value) == bits(ts.values[i])
-//@   ensures times: ts != nil && wellShapedTS(ts) ==> forall i :: 0 <= i && i < len(ts.values) ==> result[i].Time == tsTime(ts.fromTime, i, ts.step)
+//@   ensures times: ts != nil ==> forall i :: 0 <= i && i < len(ts.values) ==> result[i].Time == tsTime(ts.fromTime, i, ts.step)
 //@ loop (*TimeSeries).Points#0
 //@   invariant bounds: 0 <= i && i <= len(ts.values) && len(pts) == len(ts.values) && pts.arr > old(top)
 //@   invariant values: forall k :: 0 <= k && k < i ==> bits(pts[k].Value) == bits(ts.values[k])
-//@   invariant times: wellShapedTS(ts) ==> forall k :: 0 <= k && k < i ==> pts[k].Time == tsTime(ts.fromTime, k, ts.step)
-//@   use series_time(ts.fromTime, i, len(ts.values), ts.step) when wellShapedTS(ts)
+//@   invariant times: forall k :: 0 <= k && k < i ==> pts[k].Time == tsTime(ts.fromTime, k, ts.step)
+//@   invariant cur: mention(tsTime(ts.fromTime, i, ts.step))
 
 // ---------------------------------------------------------------- write path (C01, C02, C03)
 
@@ -802,23 +803,23 @@ package whispertool
 
 //@ spec valueEqual(a int, b int) opaque bool = (isNaN(f64frombits(a)) && isNaN(f64frombits(b))) || (!isNaN(f64frombits(a)) && !isNaN(f64frombits(b)) && fpeq(f64frombits(a), f64frombits(b)))
 //@ spec diffcnt(ra floats, oa int, rb floats, ob int, n int, tdiff bool) rec int = ite(n <= 0, 0, diffcnt(ra, oa, rb, ob, n - 1, tdiff) + ite(tdiff || !valueEqual(ra[oa + n - 1], rb[ob + n - 1]), 1, 0))
+//@ spec tsLen(ts *TimeSeries) int = ite(ts == nil, 0, len(ts.values))
 //@ spec tsDiffers(ts *TimeSeries, ts2 *TimeSeries, i int) bool = ts.fromTime != ts2.fromTime || !valueEqual(bits(ts.values[i]), bits(ts2.values[i]))
 //@ spec tsDiffCnt(ts *TimeSeries, ts2 *TimeSeries, n int) int = diffcnt(row(ts.values), ts.values.off, row(ts2.values), ts2.values.off, n, ts.fromTime != ts2.fromTime)
 
 //@ func (*TimeSeries).DiffPoints
 //@   props C09 C08 C11
-//@   requires ts != nil && ts2 != nil && wellShapedTS(ts)
-//@   ensures unequal_len: len(ts.values) != len(ts2.values) ==> len(result0) == len(ts.values) && len(result1) == len(ts2.values)
-//@   ensures count: len(ts.values) == len(ts2.values) ==> len(result0) == tsDiffCnt(ts, ts2, len(ts.values)) && len(result1) == len(result0)
+//@   ensures absent: (ts == nil || ts2 == nil) && tsLen(ts) == tsLen(ts2) ==> len(result0) == 0 && len(result1) == 0
+//@   ensures unequal_len: tsLen(ts) != tsLen(ts2) ==> len(result0) == tsLen(ts) && len(result1) == tsLen(ts2)
+//@   ensures count: ts != nil && ts2 != nil && len(ts.values) == len(ts2.values) ==> len(result0) == tsDiffCnt(ts, ts2, len(ts.values)) && len(result1) == len(result0)
 //@   ensures fresh: (len(result0) == 0 || fresh(result0)) && (len(result1) == 0 || fresh(result1))
-//@   ensures each: len(ts.values) == len(ts2.values) ==> forall i :: 0 <= i && i < len(ts.values) && tsDiffers(ts, ts2, i) ==>
+//@   ensures each: ts != nil && ts2 != nil && len(ts.values) == len(ts2.values) ==> forall i :: 0 <= i && i < len(ts.values) && tsDiffers(ts, ts2, i) ==>
 //@                 0 <= tsDiffCnt(ts, ts2, i) && tsDiffCnt(ts, ts2, i) < len(result0)
 //@                 && result0[tsDiffCnt(ts, ts2, i)].Time == tsTime(ts.fromTime, i, ts.step) && bits(result0[tsDiffCnt(ts, ts2, i)].Value) == bits(ts.values[i])
 //@                 && bits(result1[tsDiffCnt(ts, ts2, i)].Value) == bits(ts2.values[i])
-//@                 && (ts.fromTime == ts2.fromTime ==> result1[tsDiffCnt(ts, ts2, i)].Time == tsTime(ts.fromTime, i, ts.step))
+//@                 && result1[tsDiffCnt(ts, ts2, i)].Time == tsTime(ts2.fromTime, i, ts.step)
 //@ loop (*TimeSeries).DiffPoints#0
-//@   use series_time(ts.fromTime, i, len(ts.values), ts.step)
-//@   invariant bounds: 0 <= i && i <= len(ts.values) && len(ts.values) == len(ts2.values)
+//@   invariant bounds: 0 <= i && i <= tsLen(ts) && tsLen(ts) == tsLen(ts2)
 //@   invariant fresh: ((len(pts) == 0 && pts.arr == 0) || pts.arr > old(top)) && ((len(pts2) == 0 && pts2.arr == 0) || pts2.arr > old(top))
 //@   invariant separate: (pts.arr == 0 && pts2.arr == 0) || pts.arr != pts2.arr
 //@   invariant count: len(pts) == tsDiffCnt(ts, ts2, i) && len(pts2) == len(pts) && len(pts) <= i
@@ -827,7 +828,8 @@ package whispertool
 //@                 0 <= tsDiffCnt(ts, ts2, k) && tsDiffCnt(ts, ts2, k) < len(pts)
 //@                 && pts[tsDiffCnt(ts, ts2, k)].Time == tsTime(ts.fromTime, k, ts.step) && bits(pts[tsDiffCnt(ts, ts2, k)].Value) == bits(ts.values[k])
 //@                 && bits(pts2[tsDiffCnt(ts, ts2, k)].Value) == bits(ts2.values[k])
-//@                 && (ts.fromTime == ts2.fromTime ==> pts2[tsDiffCnt(ts, ts2, k)].Time == tsTime(ts.fromTime, k, ts.step))
+//@                 && pts2[tsDiffCnt(ts, ts2, k)].Time == tsTime(ts2.fromTime, k, ts.step)
+//@   invariant cur: mention(tsTime(ts.fromTime, i, ts.step)) && mention(tsTime(ts2.fromTime, i, ts.step))
 
 // ---------------------------------------------------------------- handles: open, lock, sync, close (C05, C13)
 
@@ -1027,3 +1029,16 @@ package whispertool
 //@   invariant finer_untouched: archiveID >= 0 ==> forall b :: b < archOf(w, archiveID).offset ==> fbyte(w.fileBuf, b) == old(fbyte(w.fileBuf, b))
 //@   invariant untouched_before: archiveID >= 0 && iter <= archiveID ==> frow(w.fileBuf) == old(frow(w.fileBuf)) && len(points) == len(entry(points))
 //@   invariant too_old: archiveID >= 0 && (len(entry(points)) == 0 || entry(points)[len(entry(points)) - 1].Time <= now - retOf(w, archiveID)) ==> frow(w.fileBuf) == old(frow(w.fileBuf))
+
+//@ func (*TimeSeries).FromTime
+//@   props C16 C08 C09 C10
+//@   ensures v: (ts == nil ==> result == 0) && (ts != nil ==> result == ts.fromTime)
+//@ func (*TimeSeries).UntilTime
+//@   props C16 C08 C09 C10
+//@   ensures v: (ts == nil ==> result == 0) && (ts != nil ==> result == ts.untilTime)
+//@ func (*TimeSeries).Step
+//@   props C16 C08 C09 C10
+//@   ensures v: (ts == nil ==> result == 0) && (ts != nil ==> result == ts.step)
+//@ func (*TimeSeries).Values
+//@   props C16 C08 C09 C10
+//@   ensures v: (ts == nil ==> len(result) == 0 && result.arr == 0) && (ts != nil ==> result === ts.values)
